@@ -54,7 +54,7 @@ Section Coherent.
       destruct (get_cookies_spec P parse_qs parse_cookie parse_cc s I) as [_ R].
       destruct (get_cookies s) as [jar s']; cbn [fst snd] in *. rewrite R. reflexivity.
     - (* cache_control *)
-      destruct (get_CC_spec P parse_qs parse_cookie parse_cc ser_cc cc_empty s I) as [_ [o [Ho Hp]]].
+      destruct (get_CC_spec P parse_qs parse_cookie parse_cc ser_cc cc_empty s I) as [_ [o [Ho [_ Hp]]]].
       destruct (get_CC s) as [id s']; cbn [fst snd] in *. rewrite Ho, Hp. reflexivity.
     - congruence.
   Qed.
@@ -76,7 +76,7 @@ Section Coherent.
 
   Lemma Inv_strip s : Inv s -> Inv (strip P s).
   Proof.
-    intros [Iq Ik Ic Ib Ig Ih]. unfold strip. split; cbn [env gets ccs hgets hccs]; auto.
+    intros [Iq Ik Ic Ig Ih]. unfold strip. split; cbn [env gets ccs hgets hccs]; auto.
     - intros id qs E. rewrite env_get_strip, cache_QCACHE in E. discriminate.
     - intros jar h E. rewrite env_get_strip, cache_CKCACHE in E. discriminate.
     - intros h id E. rewrite env_get_strip, cache_CCCACHE in E. discriminate.
@@ -121,7 +121,7 @@ Section Coherent.
   Lemma wcs_get_GET s : wcs (snd (get_GET s)) = wcs s.
   Proof.
     unfold C01_EnvView.get_GET.
-    destruct (env_get K_QCACHE (env s)) as [[| | |id qs| |]|];
+    destruct (env_get K_QCACHE (env s)) as [[| | |id qs| | |]|];
       try destruct (str_eqb qs (src K_QS (env s)));
       destruct (if is_nil (src K_QS (env s)) then inl [] else parse_qs (src K_QS (env s))); reflexivity.
   Qed.
@@ -132,7 +132,7 @@ Section Coherent.
   Lemma wcs_get_cookies s : wcs (snd (get_cookies s)) = wcs s.
   Proof.
     unfold C01_EnvView.get_cookies.
-    destruct (env_get K_CKCACHE (env s)) as [[| | | |jar h|]|]; try destruct (str_eqb h (src K_COOKIE (env s))); reflexivity.
+    destruct (env_get K_CKCACHE (env s)) as [[| | | |jar h| |]|]; try destruct (str_eqb h (src K_COOKIE (env s))); reflexivity.
   Qed.
   Lemma wcs_mutate_header n v s : wcs (snd (C01_EnvView.mutate_header P cookie_edit n v s)) = wcs s.
   Proof.
@@ -143,7 +143,8 @@ Section Coherent.
   Lemma wcs_get_CC s : wcs (snd (get_CC s)) = wcs s.
   Proof.
     unfold C01_EnvView.get_CC.
-    destruct (env_get K_CCCACHE (env s)) as [[| | | | |[[h id]|]]|]; try destruct (str_eqb h (src K_CC (env s)));
+    destruct (env_get K_CCCACHE (env s)) as [[| | | | |[[h id]|]|]|];
+      try destruct (str_eqb h (src K_CC (env s)) && _);
       destruct (cc_empty (parse_cc (src K_CC (env s)))); reflexivity.
   Qed.
   Lemma wcs_cc_mut id m s : wcs (snd (C01_EnvView.cc_mut P CCOP ser_cc cc_apply repaired id m s)) = wcs s.
@@ -163,9 +164,9 @@ Section Coherent.
       rewrite nth_set_nth_other by exact Hne. exact H.
   Qed.
 
-  Lemma wcs_step s o : wcs_mono s (snd (step s o)).
+  Lemma wcs_step s o : o <> OCopyEnv P CCOP -> wcs_mono s (snd (step s o)).
   Proof.
-    destruct o; cbn [C01_EnvView.step]; try (apply wcs_mono_eq; reflexivity).
+    intros Hcopy. destruct o; cbn [C01_EnvView.step]; try (apply wcs_mono_eq; reflexivity).
     - destruct v; apply wcs_mono_eq; reflexivity.
     - destruct (env_has k (env s)); apply wcs_mono_eq; reflexivity.
     - destruct v; apply wcs_mono_eq; reflexivity.
@@ -190,14 +191,16 @@ Section Coherent.
       + destruct (held P HCC i s); cbn [snd]; [apply wcs_cc_mut|reflexivity].
     - apply wcs_mono_eq. cbn [snd]. unfold cc_assign. destruct a; reflexivity.
     - cbn [snd]. apply wcs_rd.
+    - congruence.
   Qed.
 
-  Theorem charset_sticky ops : forall s w cs,
+  Theorem charset_sticky ops : Forall (fun o => o <> OCopyEnv P CCOP) ops -> forall s w cs,
     nth w (wcs s) None = Some cs ->
     nth w (wcs (run ops s)) None = Some cs /\ obsA GCharset w (run ops s) = VStr cs.
   Proof.
+    intros Hops.
     assert (K : forall s w cs, nth w (wcs s) None = Some cs -> nth w (wcs (run ops s)) None = Some cs).
-    { induction ops as [|o ops IH]; intros s w cs H; cbn; [exact H|]. apply IH. apply wcs_step. exact H. }
+    { induction Hops as [|o ops Ho Hops IH]; intros s w cs H; cbn; [exact H|]. apply IH. apply wcs_step; assumption. }
     intros s w cs H. split; [apply K; exact H|].
     unfold C01_EnvView.obsA. cbn [C01_EnvView.rd]. unfold get_charset. rewrite (K _ _ _ H). reflexivity.
   Qed.
@@ -293,7 +296,7 @@ Section Coherent.
     intros Hv header Hne. cbn [C01_EnvView.step]. rewrite Hv. cbn [snd]. unfold C01_EnvView.mutate_header.
     assert (E : (match env_get K_COOKIE (env s) with Some (EStr h) => (true, h) | _ => (false, []) end)
                 = (match env_get K_COOKIE (env s) with Some (EStr _) => true | _ => false end, header)).
-    { unfold header. destruct (env_get K_COOKIE (env s)) as [[| | | | |]|]; reflexivity. }
+    { unfold header. destruct (env_get K_COOKIE (env s)) as [[| | | | | |]|]; reflexivity. }
     rewrite E. destruct (cookie_edit header n (Some v)) as [h' f] eqn:Ed. cbn [fst] in *.
     destruct h' as [|c0 h']; [congruence|]. cbn [is_nil negb snd with_env env]. apply env_get_set_same.
   Qed.
@@ -301,16 +304,14 @@ Section Coherent.
   (* a write through any bound CacheControl handle lands in HTTP_CACHE_CONTROL and drops the cached object *)
   Theorem cc_mut_lands s id m o p' ret :
     Inv s ->
-    nth_error (ccs s) id = Some o -> cc_apply m (cc_props P o) = (Some p', ret) ->
+    nth_error (ccs s) id = Some o -> cc_bound P o = true -> cc_apply m (cc_props P o) = (Some p', ret) ->
     let s' := snd (C01_EnvView.cc_mut P CCOP ser_cc cc_apply repaired id m s) in
     env_get K_CC (env s') = Some (EStr (ser_cc p')) /\
     env_get K_CCCACHE (env s') = Some (ECCCache None) /\
     obsF GCC s' = cc_obs (parse_cc (ser_cc p')).
   Proof.
-    intros I Ho Ha. cbv zeta.
+    intros I Ho Hb Ha. cbv zeta.
     pose proof (cc_mut_inv P CCOP parse_qs parse_cookie parse_cc ser_cc cc_apply s id m I) as I'.
-    assert (Hb : cc_bound P o = true).
-    { pose proof (inv_bound P parse_qs parse_cookie parse_cc s I) as B. rewrite Forall_forall in B. apply B. eapply nth_error_In; eauto. }
     revert I'. unfold C01_EnvView.cc_mut. rewrite Ho, Ha, Hb. cbn [snd]. intros I'.
     assert (E1 : env_get K_CC (env (C01_EnvView.cc_callback P ser_cc repaired p'
                     (mkSt P (env s) (gets s) (set_nth id (mkCC P p' true) (ccs s)) (hgets s) (hccs s) (wcs s))))
@@ -322,5 +323,33 @@ Section Coherent.
     - unfold C01_EnvView.cc_callback. cbn [cc_update_invalidates repaired with_env env]. apply env_get_set_same.
     - rewrite fresh_is_function_of_environ by (auto; exact Logic.I).
       cbn [Spec.C01_View.spec_val]. rewrite src_strip by exact noncache_CC. unfold src. rewrite E1. reflexivity.
+  Qed.
+  (* ---------------------------------------------------------------- a further wrapper over a COPY of the environ *)
+  (* the view fetched in the copied environ is bound to the copy, whatever the copied cache tuple says, so a write
+     through it lands in the copy's HTTP_CACHE_CONTROL (and nowhere else: the model has no other environ to write) *)
+  Theorem copy_independent s m : Inv s ->
+    let s1 := copy_env P s in
+    let id := fst (get_CC s1) in
+    let s2 := snd (get_CC s1) in
+    exists o, nth_error (ccs s2) id = Some o /\ cc_bound P o = true /\
+              cc_props P o = parse_cc (src K_CC (env s)) /\
+              forall p' ret, cc_apply m (cc_props P o) = (Some p', ret) ->
+                env_get K_CC (env (snd (C01_EnvView.cc_mut P CCOP ser_cc cc_apply repaired id m s2))) = Some (EStr (ser_cc p')).
+  Proof.
+    intros I. cbv zeta.
+    pose proof (copy_env_inv P parse_qs parse_cookie parse_cc s I) as I1.
+    destruct (get_CC_spec P parse_qs parse_cookie parse_cc ser_cc cc_empty _ I1) as [I2 [o [Ho [Hb Hp]]]].
+    exists o. split; [exact Ho|]. split; [exact Hb|]. split.
+    - rewrite Hp. unfold copy_env, src. cbn [env].
+      assert (E : forall e, env_get K_CC (map (fun kv : str * eval => match snd kv with
+                                                   | EQCache id qs => (fst kv, EQForeign (nth id (gets s) []) qs)
+                                                   | v => (fst kv, v)
+                                                   end) e)
+                            = match env_get K_CC e with Some (EQCache id qs) => Some (EQForeign (nth id (gets s) []) qs) | x => x end).
+      { induction e as [|[k0 v0] e IH]; cbn [map env_get]; [reflexivity|].
+        destruct v0; cbn [fst snd env_get]; destruct (str_eqb k0 K_CC); auto. }
+      rewrite E. destruct (env_get K_CC (env s)) as [[| | | | | |]|]; reflexivity.
+    - intros p' ret Ha.
+      apply (cc_mut_lands _ _ _ _ _ _ I2 Ho Hb Ha).
   Qed.
 End Coherent.
